@@ -13,6 +13,7 @@ import (
 	"io"
 	"os"
 	"reflect"
+	"runtime/debug"
 
 	"tunnox-core/internal/constants"
 	"tunnox-core/internal/packet"
@@ -93,6 +94,7 @@ type caseOut struct {
 	PropMsg string      `json:"prop_msg"`
 	WireLen int         `json:"wire_len"`
 	In      *dxIn       `json:"in,omitempty"` // dx: the incoming direction
+	Panicked string     `json:"panicked,omitempty"` // the real code panicked while this case ran (value + top frames)
 }
 
 func isJSONType(t byte) bool { return packet.Type(t).IsJsonCommand() || packet.Type(t).IsCommandResp() }
@@ -191,7 +193,23 @@ func tables(wire []byte, out *caseOut) {
 	}
 }
 
-func runCase(raw json.RawMessage) interface{} {
+func runCase(raw json.RawMessage) (res interface{}) {
+	// a panic of the real code is a failure of the case, not of the harness process
+	defer func() {
+		if r := recover(); r != nil {
+			st := string(debug.Stack())
+			if len(st) > 1500 {
+				st = st[:1500]
+			}
+			msg := fmt.Sprintf("panic: %v", r)
+			res = &caseOut{PropOK: false, PropMsg: "the real StreamProcessor panicked: " + msg, Panicked: msg + "\n" + st,
+				Obs: []obs{{Ok: false, N: -1, Err: msg}}, Bodies: []string{}}
+		}
+	}()
+	return runCase1(raw)
+}
+
+func runCase1(raw json.RawMessage) interface{} {
 	var c caseIn
 	must(json.Unmarshal(raw, &c))
 	out := &caseOut{PropOK: true}
